@@ -32,6 +32,9 @@ def set_pollutants(name):
     constants.POLLUTANTS = list(adds) + list(nons)
 
 
+STARTS = ["2000-01-01", "2000-02-27", "2000-12-29", "2001-12-29", "2004-12-28", "2003-06-30"]
+
+
 def dates(n, start="2000-01-01"):
     return [str(d.date()) for d in pd.date_range(start, periods=n, freq="D")]
 
@@ -77,7 +80,7 @@ class Gen:
         # hydraulic set-up under any pollutant configuration (C20)
         self.rp = random.Random(f"{r.random()}:{polset}:{(opts or {}).get('polseed', 0)}")
         self.n = ndates
-        self.dates = dates(ndates)
+        self.dates = dates(ndates, (opts or {}).get("start", "2000-01-01"))
         self.polset = polset
         self.adds, self.nons = (POLSETS[polset] if polset != "default" else (None, None))
         self.nodes, self.arcs = [], []
@@ -152,12 +155,21 @@ class Gen:
         self.nodes.append({"name": nm, "type_": "Waste"})
         return nm
 
+    def decays(self, d):
+        """temperature-dependent decay on a store (products constant x exponent^dT above 1 included)"""
+        adds, nons = self.pols()
+        if adds and self.r.random() < 0.35:
+            d["decays"] = {p: {"constant": self.rp.choice([F(1, 100), F(1, 2), F(3, 2)]),
+                               "exponent": self.rp.choice([F(1), F(1001, 1000), F(2)])} for p in adds[:2]}
+            d["data_input_dict"] = self.data({"temperature": [temp(self.r) for _ in range(self.n)]})
+
     def reservoir(self, river_like=False):
         r = self.r
         nm = self.name("resv")
         cap = F(r.choice([20, 50, 200]))
         d = {"name": nm, "type_": "RiverReservoir" if river_like else "Reservoir", "capacity": cap,
              "area": F(10), "initial_storage": self.vq(cap * r.choice([F(0), F(1, 2), F(1)]))}
+        self.decays(d)
         if river_like:
             d["environmental_flow"] = r.choice([F(0), F(2), F(6)])
         self.nodes.append(d)
@@ -176,6 +188,7 @@ class Gen:
             d["residence_time"] = F(r.choice([1, 2, 5, 20]))
             d["infiltration_threshold"] = r.choice([F(1), F(1, 2)])
             d["infiltration_pct"] = r.choice([F(0), F(1, 4)])
+        self.decays(d)
         self.nodes.append(d)
         return nm
 
@@ -268,7 +281,15 @@ class Gen:
                              "pollutant_load": {p: conc(self.rp) / 10 for p in adds[:1]},
                              "initial_storage": self.vq(area * depth * F(2, 5) * r.choice([F(0), F(1, 2), F(9, 10)]))})
         if growing:
+            months = sorted({t[:7] for t in self.dates})
+            nutrient_free = self.rp.random() < 0.3
+            sdata = {}
+            for nut in ("nhx", "noy", "srp"):
+                for src in ("fertiliser", "manure", "residue", "dry", "wet"):
+                    for mth in months:
+                        sdata[(f"{nut}-{src}", mth)] = F(0) if nutrient_free else self.rp.choice([F(0), F(1, 10 ** 6), F(1, 10 ** 5)])
             surfaces.append({"type_": "GrowingSurface", "surface": "crop", "area": F(100), "rooting_depth": F(1, 2),
+                             "data_input_dict": sdata,
                              "crop_factor_stages": [0.0, 0.0, 0.3, 0.3, 1.2, 1.2, 0.325, 0.0, 0.0],
                              "crop_factor_stage_dates": [0, 50, 91, 121, 171, 221, 254, 285, 365],
                              "sowing_day": 91, "harvest_day": 285,
@@ -399,7 +420,7 @@ def conv(x, mode):
         out = {}
         for k, v in x.items():
             if isinstance(k, tuple) and len(k) == 2 and isinstance(k[1], str):
-                k = (k[0], pd.Timestamp(k[1]))
+                k = (k[0], pd.Period(k[1], "M") if len(k[1]) == 7 else pd.Timestamp(k[1]))
             out[k] = conv(v, mode)
         return out
     return x
